@@ -277,7 +277,7 @@ LAYOUTS = ['scalar', '2d', 'binned', 'common_tof']
 
 def plan(tier, seed):
     n = 8 if tier == 'quick' else 16
-    return [{'cases': 100 if tier == 'quick' else 2500, 'insitu': 10 if tier == 'quick' else 200}
+    return [{'cases': 100 if tier == 'quick' else 20000, 'insitu': 10 if tier == 'quick' else 1500}
             for _ in range(n)]
 
 
